@@ -118,7 +118,8 @@ type shardRun struct {
 // from the top of its stack that belongs to pat-go - or "" if a frame of the monitor comes first (the monitor itself is
 // the one computing) or no such goroutine is found.
 func spinningFrame(dump string) string {
-	reFrame := regexp.MustCompile(`(?m)^([A-Za-z0-9_./\-]+[A-Za-z0-9_)\]*])\(`)
+	// a frame line is "<function>(<arguments>)" at the start of a line; pointer receivers are written "pkg.(*T).M"
+	reFrame := regexp.MustCompile(`(?m)^((?:[A-Za-z0-9_/\-]+|\.|\(\*[A-Za-z0-9_]+\)|\[[^\]]*\]|·)+)\(`)
 	for _, g := range strings.Split(dump, "\n\ngoroutine ") {
 		head := firstLines(g, 1)
 		if !(strings.Contains(head, "[running") || strings.Contains(head, "[runnable")) {
